@@ -4,8 +4,9 @@ Spec:   AFV/Spec/FusedPeak.lean  `peak`: explicit timeline over the execution of
                                  first to last use, kept for the whole execution of a shared loop they survive, only backing
                                  stores shared between Einsums, persistent holders live throughout × n_instances.  Nothing of the
                                  joiner's reservation algebra appears in it.
-Proof:  AFV/Props/C06.lean       single Einsum: peak = sum of the buffer sizes at their allocation points (peak_single_timeline,
-                                 uses_contiguous); liveness facts of the reference; oversubscription verdict (see the file; partial).
+Proof:  AFV/Props/C06.lean       single Einsum: `peak_single` (reported bits = reference peak, all well-formed Toll-free nests) via
+                                 tracker_allocation_points, peak_single_timeline / uses_contiguous, memBits_eq_reservations; liveness facts
+                                 of the reference for trees; oversubscription verdict.  Fused trees: correspondence only (see the file).
 Tie:    correspondence through evaluate_mapping of the CURRENT tree — which combines the per-Einsum reservations of run_model
         with the joiner's reservation algebra (merge_next / free_to_loop_index / adjust_reservations): for generated fused
         mappings of 1-3 Einsums (matmul chains, one-producer-two-consumers, two-producers-one-consumer; flat and nested
@@ -121,7 +122,7 @@ def run(ctx: Ctx):
         "intermediates at any level below the shared loops, further prefix holders, flat or once-nested Sequential, branches with "
         "holders of every tensor at any subset of levels in any order, below loops, merged into multi-tensor nodes; n_instances "
         "1-3. Streams: fused (must agree exactly), oversubscription (sizes around the peak), shared-not-fused (directed at the "
-        "known finding), single-nest-model-vs-reference (instances of the unproved half of the single-Einsum statement, AFV.C06.PeakSingleStatement, on nests of the C05 generator, "
+        "known finding), single-nest-model-vs-reference (instances of the theorem AFV.C06.peak_single_check evaluated natively on nests of the C05 generator, "
         "no Tolls), mapper-returned mappings. non-trivial = at least two Einsums and a holder below a shared loop or a "
         "nested Sequential"
     )
@@ -208,10 +209,10 @@ def run(ctx: Ctx):
         c = F.gen_case(rng, N=rng.choice([2, 3]), kind="chain", fused=False)
         handle(c, "shared-not-fused", expect_key="shared-loops-without-fused-tensor")
 
-    # single Einsum: the Lean model of run_model's reservations (`analytic`, tied to the code by C05) against the reference peak —
-    # the part of `peak_single` that is not proved (tracker placement = declarative allocation point); does not touch /repo
+    # single Einsum: instances of the theorem `peak_single_check` evaluated by the native driver (consistency of the compiled model,
+    # the reference and the theorem's statement; does not touch /repo)
     from harness import nestlib as NL
-    n_nest = 2500 if ctx.thorough else 150
+    n_nest = 800 if ctx.thorough else 60
     bad_nest = 0
     for i in range(n_nest):
         case = NL.gen_case(rng, exact=True, small=(i % 3 != 0), toll_prob=0.0)
